@@ -107,6 +107,12 @@ claim("C18", SIM + "; oracle: executable lifecycle model per party (state, queue
       "trusted: lifecycle model written from the statement; shadow reference for decrypting emitted data messages (undecodable ones are counted and their history exempted)",
       "DESIGN.md section 5 C18")
 
+claim("C19", SIM + "; oracle: bytes reachable from the conversation (object-graph walker) and longest emitted message, compared at n, 2n, 4n, 8n",
+      "Eight traffic patterns (ping-pong, one-directional, bursts, floods of forged data messages, garbage floods, repeated refresh AKEs, repeated SMP runs, error messages) x version x fragment size are run to 512 messages (thorough: up to 4096); at checkpoints 64/128/256/512 the pair is brought to a quiescent canonical point and the reachable bytes of each conversation and the longest message emitted for a fixed-length text are recorded. "
+      "A violation needs growth above 2 KiB (64 bytes for messages) at every doubling; the fastest-growing field path is reported.",
+      "trusted: the walker (reflect+unsafe from outside the package); slack calibrated on the repaired tree (observed jitter < 600 bytes)",
+      "DESIGN.md section 5 C19")
+
 _todo = "check not built yet in this session (see DESIGN.md section 12 build order)"
 for pid in [ "C11", "C12", "C13", "C14", "C15", "C16", "C18", "C19", "C20"]:
     NA[pid] = _todo
